@@ -31,6 +31,33 @@ Scale(net) == IF Len(net.pins) = 2 THEN 2 ELSE Len(net.pins) * Len(net.pins)
 GradTimes144(x, nets, i) == QSum([k \in 1..Len(nets) |-> (NetGrad(x, nets[k], i) * 144) \div Scale(nets[k])], Len(nets))
 IncidentW4(nets, i) == QSum([k \in 1..Len(nets) |-> IF \E j \in 1..Len(nets[k].pins) : nets[k].pins[j].c = i THEN nets[k].w4 ELSE 0], Len(nets))
 \* stationarity within a tolerance proportional to the incident weight: fixed-point rounding of x (1/1024) plus solver tolerance
+\* The net list a NetModel holds for an instance, by construction path.  via = 0: addNet(cells, offsets, weight), fixed pins
+\* given as cell 0 are kept as they are.  via = 1, 2: addNet(cells, offsets, minPin, maxPin, weight) / xTopology of a Circuit:
+\* the movable pins in order, then the lowest and (if different) the highest fixed pin; a net without movable pin, or with
+\* a single pin in all, is dropped.  Weights are kept (w4 -> w1024 = 256 w4 / div).
+QMin(S) == CHOOSE v \in S : \A u \in S : v <= u
+QMax(S) == CHOOSE v \in S : \A u \in S : v >= u
+MovablePins(net) == SelectSeq(net.pins, LAMBDA p : p.c # 0)
+FixedOffs(net) == { net.pins[k].o4 : k \in { j \in 1..Len(net.pins) : net.pins[j].c = 0 } }
+EffectivePins(net, via) ==
+    IF via = 0 THEN net.pins
+    ELSE IF MovablePins(net) = <<>> THEN <<>>
+    ELSE IF FixedOffs(net) = {} THEN MovablePins(net)
+    ELSE MovablePins(net) \o <<[c |-> 0, o4 |-> QMin(FixedOffs(net))]>> \o
+         (IF QMax(FixedOffs(net)) # QMin(FixedOffs(net)) THEN <<[c |-> 0, o4 |-> QMax(FixedOffs(net))]>> ELSE <<>>)
+RECURSIVE EffectiveNets(_, _)
+EffectiveNets(nets, via) ==
+    IF nets = <<>> THEN <<>>
+    ELSE LET p == EffectivePins(Head(nets), via) IN
+         (IF Len(p) <= 1 THEN <<>> ELSE <<[w4 |-> Head(nets).w4, pins |-> p]>>) \o EffectiveNets(Tail(nets), via)
+\* the built model (weights x 1024) is the effective net list with every weight kept, at weight scale 1/div
+BuiltAs(built, nets, via, div) ==
+    LET eff == EffectiveNets(nets, via) IN
+    /\ Len(built) = Len(eff)
+    /\ \A k \in 1..Len(eff) : /\ built[k].exact /\ built[k].w1024 * div = eff[k].w4 * 256
+                               /\ Len(built[k].pins) = Len(eff[k].pins)
+                               /\ \A j \in 1..Len(eff[k].pins) : built[k].pins[j].c = eff[k].pins[j].c /\ built[k].pins[j].o4 = eff[k].pins[j].o4
+
 Stationary(x, nets, n, slack) ==
     \A i \in 1..n : QAbs(GradTimes144(x, nets, i)) <= 144 * 2 * IncidentW4(nets, i) * slack
 =============================================================================
